@@ -738,7 +738,9 @@ def execute(case, ctx):
                 run_route(r4, path, field, 'del_put_slice_none' if delete else 'put_slice', code4, start, stop, n)
                 lafter = ast.parse(r4.src)
             except Exception as e4:
-                if S(ast.parse(lsrc)) == S(tree0):
+                if has_degenerate(root.a) or ('r4' in locals() and r4 is not None and has_degenerate(r4.a)):
+                    ctx.count('layout_pair_with_degenerate_container_not_compared(documented invalid state without norm)')
+                elif S(ast.parse(lsrc)) == S(tree0):
                     raise Violation('C03.layout', f'{desc}: the same request on a re-layout of the program raised {e4!r}\n--- layout ---\n{lsrc[:500]}', f'layout_raise:{site}') from None
 
                 lafter = None
